@@ -390,6 +390,11 @@ void on_signal(int sig) {
 
 Stats& stats() { return g.stats; }
 int self() { return tls_self ? tls_self->id : -1; }
+bool owns_any_mutex() {
+  if (!tls_self) return false;
+  for (auto& kv : g.mutex_owner) if (kv.second == tls_self->id) return true;
+  return false;
+}
 bool is_finished(int id) {
   return id >= 0 && static_cast<size_t>(id) < g.threads.size() && g.threads[static_cast<size_t>(id)]->state == SimThread::FINISHED;
 }
